@@ -849,11 +849,11 @@ def evidence(tier, seed, tasks, results):
         'coverage': {
             'bounds': {
                 **lb,
-                'functions turned into coroutines (from the current source)': selected + ['register_pretty.<locals>.decorator'],
+                'functions turned into coroutines (from the current source: the entry points plus every undecorated non-generator function that touches module-level mutable state or a lock, directly or through calls by name from the entry points)': selected + ['register_pretty.<locals>.decorator'],
                 'yield points inserted': points,
                 'locks modelled': locks,
                 'schedules': 'two threads: A runs c1 statements, B c2, A c3, then both run to completion; c1 fixed per task (partition; quick: every 4th value of 0..52), c2 symbolic 0..52, c3 symbolic over a set of 10 (quick) / 24 (thorough) values; three threads: A c1, B c2, C c3, then completion',
-                'scenarios_2': 'also: both threads print the very same object; containers holding lazily registered values',
+                'scenarios_2': 'also: both threads print the very same object; containers holding lazily registered values; two printers registered with predicates and values of unregistered types the second predicate accepts',
                 'scenarios': 'first print of a lazily (by name) registered type by both threads; lazily registered base class with subclass instances; two lazy levels; direct registration shadowed by a newer by-name one; lazily / directly / not registered types mixed',
             },
             'note': 'switch points are solver variables concretised by chains: each path is one schedule, executed on the real shared module state; a violation is a real schedule, absence of violations is claimed for statement-granularity interleavings of these functions only',
